@@ -57,6 +57,22 @@ class Ctx:
         self.inputs = {}      # name -> z3 const (declared inputs, for model extraction)
         self.uf_terms = {}    # uf name -> list of (args, result) for axiom instantiation
         self.notes = []
+        self.model = None     # a model of the current pc (or None): saves the feasibility query of the side it satisfies
+
+    def model_says(self, cond):
+        """True/False when the cached model of pc decides cond, None without a model"""
+        m = self.model
+        if m is None:
+            return None
+        try:
+            r = m.eval(cond, model_completion=True)
+        except z3.Z3Exception:
+            return None
+        if z3.is_true(r):
+            return True
+        if z3.is_false(r):
+            return False
+        return None
 
     def add(self, cond):
         """Add an assumption / path-condition conjunct."""
@@ -73,6 +89,8 @@ class Ctx:
             raise PathAbort("assumption false")
         self.pc.append(cond)
         self.solver.add(cond)
+        if self.model is not None and self.model_says(cond) is not True:
+            self.model = None
 
     def check(self, *extra):
         s = self.solver
@@ -85,6 +103,8 @@ class Ctx:
             self.solver_s += time.time() - t0
             self.queries += 1
             m = s.model() if r == z3.sat else None
+            if m is not None:
+                self.model = m        # satisfies pc (and extra)
             return str(r), m
         finally:
             s.pop()
@@ -111,22 +131,32 @@ def decide(cond) -> bool:
     if i < len(c.prefix):
         choice = c.prefix[i]
     else:
-        rt, _ = c.check(cond)
-        if rt == "unsat":
-            rf = "sat?"          # pc is satisfiable by construction, so the other side is
-            choice = False
-        else:
+        known = c.model_says(cond)
+        if known is True:
+            keep = c.model
             rf, _ = c.check(z3.Not(cond))
-            if rf == "unsat":
-                choice = True
-            else:
-                # both sides feasible or unknown: explore both (unknown explored = sound for proofs)
-                choice = True
+            c.model = keep                      # the model of the side that is taken
+            choice = True
+            if rf != "unsat":
                 c.pending.append(c.trail + [False])
+        else:
+            rt, _ = c.check(cond)
+            if rt == "unsat":
+                choice = False                   # pc is satisfiable by construction, so the other side is
+            else:
+                keep = c.model if rt == "sat" else None
+                rf = "sat" if known is False else c.check(z3.Not(cond))[0]
+                c.model = keep
+                choice = True
+                if rf != "unsat":
+                    # both sides feasible or unknown: explore both (unknown explored = sound for proofs)
+                    c.pending.append(c.trail + [False])
     c.trail.append(choice)
     cc = cond if choice else z3.Not(cond)
     c.pc.append(cc)
     c.solver.add(cc)
+    if c.model is not None and c.model_says(cc) is not True:
+        c.model = None
     return choice
 
 
